@@ -61,7 +61,12 @@ def _noop(it, a, k, n):
     return NONE
 
 
+def _update_wrapper(it, a, k, n):
+    return a[0]
+
+
 _TABLE = {
+    ("functools", "update_wrapper"): lambda it: _b("functools.update_wrapper", _update_wrapper),
     ("time", "sleep"): lambda it: _b("time.sleep", _noop),
     ("re", "compile"): lambda it: _b("re.compile", _re_compile),
     ("re", "ASCII"): lambda it: _re_flag(256),
